@@ -31,10 +31,11 @@ CLAIMS = {
             TRUST + "T-VALUES / T-TYPES axioms (validated against the real typing module by the bounded tier); order independence bounded."),
     "C07": ("proof", "6.C07",
             "Every shipped rewriter method (generic traversal with its 'rewrite_' + name dispatch rebuilt from the AST, RemoveEmptyContainers, RewriteConfigDict, "
-            "RewriteLargeUnion, RewriteAnonymousTypedDictToDict, RewriteGenerator, NoOp, Chained) is proved to raise nothing, to terminate (decreases depth) and to widen "
+            "RewriteLargeUnion, RewriteAnonymousTypedDictToDict, RewriteGenerator, RewriteMostSpecificCommonBase with _compute_bases / _merge_common_bases and the functools.reduce fold, "
+            "NoOp, Chained) is proved to raise nothing, to terminate (decreases depth; the base-class walk decreases the height in the class hierarchy) and to widen "
             "(for all values: mem(v, t) implies mem(v, rewrite(t))) for all well-formed types of any depth; RemoveEmptyContainers' trigger clause (dropped only next to a "
-            "non-empty same-kind sibling) is proved at the top level. Trigger clauses of the other classes and RewriteMostSpecificCommonBase are decided by the bounded tier.",
-            TRUST + "RemoveEmptyContainers' widening holds only relative to observed values (bounded); RewriteMostSpecificCommonBase is bounded; "
+            "non-empty same-kind sibling) and RewriteMostSpecificCommonBase's (only unions of classes are replaced) are proved at the top level. Trigger clauses of the other classes are decided by the bounded tier.",
+            TRUST + "RemoveEmptyContainers' widening holds only relative to observed values (bounded); class hierarchy axioms (instances of a class are instances of its bases, well-founded); "
             "carve-out: no plain class is named like a handler suffix (known finding)."),
     "C09": ("proof", "6.C09",
             "make_query: the WHERE clause read off the SQL text built on each path denotes exactly module == m and qualname starts-with p (byte-wise), GROUP BY = all selected "
@@ -51,8 +52,11 @@ CLAIMS = {
     "C12": ("proof", "6.C12",
             "render_signature: for every valid signature of any length the token list equals the parameters in order with exactly one '/' right after the positional-only ones and "
             "one bare '*' before the first keyword-only parameter unless *args precedes it (loop invariant with ghost counting functions), single-line and wrapped forms are joins "
-            "of the same tokens; render_parameter text exact. Placement by qualname, decorators and 'parses as Python' are decided by the bounded tier (ast.parse of real renders).",
-            TRUST + "T-SIG; render_annotation text is an uninterpreted function of the type at L1 (C11 bounded); nested-class rendering is a recorded known finding."),
+            "of the same tokens; render_parameter text exact. build_module_stubs (heap proof over ModuleStub / ClassStub objects with freshness and injectivity invariants): one module stub per "
+            "module that has a definition; every definition appears - at module level under its bare name, or inside the ClassStub named by its class path - with its own signature, kind and async flag; "
+            "nothing else appears, also when several modules define classes / functions of the same names. Decorator text, async keyword and 'parses as Python' are decided by the bounded tier (ast.parse of real renders).",
+            TRUST + "T-SIG; T-STUBS (FunctionStub as an immutable record - checked by an AST scan for field assignments outside constructors); render_annotation text is an uninterpreted function of the type at L1 (C11 bounded); "
+            "the render methods of the stub classes are bounded; nested-class rendering is a recorded known finding."),
     "C13": ("proof", "6.C13",
             "The full decision table of update_signature_args (per position, any number of parameters) and update_signature_return, the Optional rule of render_parameter, "
             "and the strategy passed by apply (IGNORE means overwrite): every VC is over enumerations, options and an uninterpreted type sort and is decided.",
@@ -97,11 +101,13 @@ CLAIMS["C14"] = ("exploration", "6.C14",
     TRUST + "determinism of shrink_types / stub builders over sets is not proved in this round (bounded only).")
 
 CLAIMS["C11"] = ("exploration", "6.C11",
-    "Bounded: for types over classes spread across modules whose names are dotted / textual suffixes of one another, a class named like its module, nested classes, _io types and anonymous "
-    "TypedDicts at every container position, the stub's import block is executed in an empty namespace, generated classes are registered and every annotation is eval-ed and compared "
-    "structurally with the rendered type (argument / return / yield positions). The text of an annotation (repr of typing objects, regex stripping) is outside the VC generator and both "
-    "solvers' string fragments; the structural half (import completeness, TypedDict replacement) is not under L1 contracts yet.",
-    TRUST + "bounded only; two recorded known findings (same class name from two modules; field types of generated TypedDict classes not imported).")
+    "Bounded (decides the statement): for types over classes spread across modules whose names are dotted / textual suffixes of one another, a class named like its module, nested classes, _io types and anonymous "
+    "TypedDicts at every container position, one and two annotations per signature, the stub's import block is executed in an empty namespace, generated classes are registered and every annotation is eval-ed and compared "
+    "structurally with the rendered type (argument / return / yield positions). Proved part (reported under coverage.obligations): import completeness - get_imports_for_annotation (recursive, all depths), "
+    "get_imports_for_signature, _get_optional_elem, ImportMap.merge, _get_import_for_qualname: every (module, name) pair that the rendering rules say an annotation uses - `uses(t, m, n)`: Any / Optional / Union / generics from typing, "
+    "a class by the root of its qualified name from its module, Optional[...] for a None default - is in the import map; the relation `uses` itself is validated against the real renderer by the bounded tier "
+    "(each annotation evaluated in a namespace that provides only what uses() lists). The text of an annotation (repr of typing objects, regex stripping) is outside the VC generator and both solvers' string fragments.",
+    TRUST + "the denotation of the text is bounded only; TypedDict replacement (ReplaceTypedDictsWithStubs) is bounded; two recorded known findings (same class name from two modules; field types of generated TypedDict classes not imported).")
 
 CLAIMS["C16"] = ("proof", "6.C16",
     "RemoveImportsTransformer.leave_Import / leave_ImportFrom are proved (nested loop invariants) to remove a name only if the ImportItem it denotes (module, object, alias) is in the move list, "
